@@ -132,12 +132,40 @@ class Inline:
         self.body, self.args, self.callee = body, args, callee
 
 
+class CallByName:
+    """returned by a model / combinator: perform a call to the function named `callee` with these argument values"""
+
+    def __init__(self, callee, args, post=None):
+        self.callee, self.args, self.post = callee, args, post
+
+
 class Wrap(Inline):
     """inline call whose result must be post-processed (e.g. wrapped in Some) - implemented by a synthetic continuation"""
 
     def __init__(self, inl, post):
         Inline.__init__(self, inl.body, inl.args, inl.callee)
         self.post = post
+
+
+def strip_generics_simple(path):
+    out, depth = [], 0
+    i = 0
+    while i < len(path):
+        c = path[i]
+        if path.startswith("::<", i):
+            depth += 1
+            i += 3
+            continue
+        if depth:
+            if c == "<":
+                depth += 1
+            elif c == ">" and path[i - 1] != "-":
+                depth -= 1
+            i += 1
+            continue
+        out.append(c)
+        i += 1
+    return "".join(out)
 
 
 class Unsupported(Exception):
@@ -431,6 +459,8 @@ class Executor:
         node.name = name
 
     def discr_of(self, node):
+        if isinstance(node, Opaque):
+            return self.func("discr", [OBJ], z3.BitVecSort(64))(node.term)
         d = node.kids.get("discr")
         if d is None:
             d = Node(node.name + ".discr", "isize")
@@ -983,11 +1013,26 @@ class Executor:
         cb = self.closure_body(f)
         if cb is not None:
             return Inline(cb, [f] + list(args), callee)
+        if isinstance(f, Opaque) and str(f.term).startswith("const:"):
+            # a function item used as a value (e.g. `.map(Authority::try_from)`, `.map_err(HttpError::Stream)`)
+            path = str(f.term)[len("const:"):]
+            for rx, fn in self.ctx.models:
+                if re.search(rx, path):
+                    r = fn(self, self._cur_st, path, list(args), None, None)
+                    if r is not NotImplemented and not isinstance(r, (Fork, Inline)):
+                        self.ctx.used_models.add(rx)
+                        return r
+            m = re.match(r"^(.*)::([A-Z][A-Za-z0-9_]*)$", strip_generics_simple(path))
+            if m and len(args) == 1:
+                vi = self.ctx.variant_index(m.group(1), m.group(2))
+                if vi is not None:
+                    return self.mk_variant(m.group(1).split("::")[-1], vi, m.group(2), args[0])
         terms = [to_term(f)] + [to_term(a) for a in args]
         fn = self.func("apply", [x.sort() for x in terms], OBJ)
         return Opaque(fn(*terms))
 
     def combinator(self, st, callee, argvals, dest_ty):
+        self._cur_st = st
         c = callee
         # strip trailing generic arguments of the method
         base = c
@@ -1093,10 +1138,14 @@ class Executor:
 
     # ---------------------------------------------------------------- calls
     def call(self, st, fid, body, bb, t, visits, out, cont):
-        ctx = self.ctx
         _, dest, callee, args, ret_bb, raw = t
-        dest_ty = self.place_type(body, dest) if dest is not None else None
         argvals = [self.operand(st, fid, body, a, None) for a in args]
+        return self.call_values(st, fid, body, bb, t, callee, argvals, visits, out, cont)
+
+    def call_values(self, st, fid, body, bb, t, callee, argvals, visits, out, cont, post=None):
+        ctx = self.ctx
+        _, dest, _callee0, args, ret_bb, raw = t
+        dest_ty = self.place_type(body, dest) if dest is not None else None
         # panics
         if re.search(r"(^|::)(panic|panic_fmt|panic_display|unwrap_failed|expect_failed|panic_const\w*|begin_panic|unreachable_display|slice_index_\w+|panic_bounds_check|panic_cold\w*|panic_explicit)(::<.*>)?$", callee.split("(")[0]) or callee.startswith(("core::panicking::", "std::rt::panic", "std::panicking::")):
             ev = Event("panic", callee, argvals, list(st["pc"]), (body.name, bb), None, body.name, bb)
